@@ -56,17 +56,27 @@ type vxC08World struct {
 func (w *vxC08World) set(s vxC08Sym) {
 	switch w.kind {
 	case "hwmon", "file":
-		f := w.fs.F(w.path)
-		f.Missing, f.Empty, f.Garbage = false, false, false
+		// REAL file content, parsed by fan2go's own util.ReadIntFromFile
+		content := ""
 		switch s.Fault {
 		case "":
-			f.Val = int(s.Value)
+			content = fmt.Sprintf("%d\n", int64(s.Value))
 		case "missing":
-			f.Missing = true
+			os.Remove(w.path)
+			return
 		case "empty":
-			f.Empty = true
+			content = ""
+		case "blank":
+			content = "\n"
 		case "garbage":
-			f.Garbage = true
+			content = "n/a\n"
+		case "digits-text":
+			content = "3 errors occurred\n"
+		case "decimal":
+			content = "45.5\n"
+		}
+		if err := os.WriteFile(w.path, []byte(content), 0644); err != nil {
+			panic(err)
 		}
 	case "cmd":
 		out := ""
@@ -100,12 +110,14 @@ func vxC08NewWorld(kind string, window int, fs *env.FS, scratch string, seed vxC
 	var controllers []*hwmon.HwMonController
 	switch kind {
 	case "hwmon":
-		w.path = fs.Add("hwmon0/temp1_input", 0)
+		w.path = filepath.Join(scratch, "hwmon0", "temp1_input")
+		os.MkdirAll(filepath.Dir(w.path), 0755)
 		sc.HwMon = &configuration.HwMonSensorConfig{Platform: "vxchip", Index: 1}
 		controllers = []*hwmon.HwMonController{{Name: "vxchip", Platform: "vxchip", Path: filepath.Dir(w.path),
 			Sensors: map[int]*sensors.HwmonSensor{1: {Index: 1, Input: w.path}}}}
 	case "file":
-		w.path = fs.Add("filesensor/temp", 0)
+		w.path = filepath.Join(scratch, "filesensor", "temp")
+		os.MkdirAll(filepath.Dir(w.path), 0755)
 		sc.File = &configuration.FileSensorConfig{Path: w.path}
 	case "cmd":
 		w.script = filepath.Join(scratch, "sensor.sh")
@@ -212,7 +224,7 @@ func vxC08Alphabet(kind string) []vxC08Sym {
 		}
 		return a
 	}
-	for _, f := range []string{"missing", "empty", "garbage"} {
+	for _, f := range []string{"missing", "empty", "blank", "garbage", "digits-text", "decimal"} {
 		a = append(a, vxC08Sym{Fault: f})
 	}
 	return a
@@ -290,9 +302,9 @@ func TestVX_C08(t *testing.T) {
 			continue
 		}
 		alpha := vxC08Alphabet(j.kind)
-		depth := 4
+		depth := 3
 		if mc.Thorough() {
-			depth = 5
+			depth = 4
 		}
 		if j.kind == "cmd" {
 			depth = 3
